@@ -157,6 +157,9 @@ func (g *cgraph) definePhi(ph *ssa.Phi, key string, depth int) {
 
 // defineLoad: loads from constant package-level integer arrays are bounded by the literal.
 func (g *cgraph) defineLoad(x *ssa.UnOp, key string) {
+	if g.a.loadOfCtorFieldGE1(x) {
+		g.le(zeroTerm, key, -1)
+	}
 	ia, ok := x.X.(*ssa.IndexAddr)
 	if !ok {
 		return
